@@ -48,7 +48,8 @@ CONSTANTS N,       \* sessions (MAC addresses)
           U,       \* IPv4 units of pool "a"
           ITO,     \* default idle timeout (quanta); no session timeout
           AdvQ,    \* the one time step of the alphabet
-          Fixed, MaxLen
+          Fixed, MaxLen,
+          Rich     \* the larger alphabet (thorough tier)
 
 Slots == 1..N
 Units == 1..U
@@ -194,6 +195,9 @@ Cont(mm) ==
     [] w.kind = "tick" ->
          LET t == TermCS2(TermRel(mm, k), k, w.old, "idle_timeout") IN TickNext(t, w.vs)
 
+\* UpdateActivity for every session except the one the parked pass is ending
+ActivityAll(mm) == Plain([mm EXCEPT !.ses = [k \in Slots |-> IF mm.ses[k].ex /\ ~(mm.w.kind = "tick" /\ mm.w.k = k) THEN [mm.ses[k] EXCEPT !.idle = 0] ELSE mm.ses[k]]], TRUE)
+
 Adv(mm, q) == Plain([mm EXCEPT !.ses = [k \in Slots |-> IF mm.ses[k].ex THEN [mm.ses[k] EXCEPT !.idle = Sat(@ + q, Cfg.cap)] ELSE mm.ses[k]]], TRUE)
 
 \* ---- the step relation, in the harness' alphabet --------------------------------------------
@@ -217,9 +221,11 @@ Take(hev, r) ==
      /\ bad' = EdgeClauses(Cfg, g, e, obs) \cup NodeClauses(Cfg, g2, obs, hev.op)
      /\ fl' = IF m.w.kind # "" THEN m.w.kind \o "_begin" ELSE IF r.m.w.kind # "" THEN r.m.w.kind \o "_begin" ELSE ""
 
-AtomicOps == {[op |-> "create", a |-> ""], [op |-> "auth", a |-> "ok"], [op |-> "auth", a |-> "fail"], [op |-> "assign", a |-> "a"],
-              [op |-> "activate", a |-> ""], [op |-> "walled", a |-> ""], [op |-> "unwalled", a |-> ""], [op |-> "activity", a |-> ""],
-              [op |-> "term", a |-> "admin"]}
+\* Rich = FALSE leaves out the calls that add nothing to the races (successful authentication, UpdateActivity of one session)
+AtomicOps == {[op |-> "create", a |-> ""], [op |-> "auth", a |-> "fail"], [op |-> "assign", a |-> "a"],
+              [op |-> "activate", a |-> ""], [op |-> "walled", a |-> ""], [op |-> "unwalled", a |-> ""], [op |-> "term", a |-> "admin"]}
+             \cup (IF Rich THEN {[op |-> "auth", a |-> "ok"], [op |-> "activity", a |-> ""]} ELSE {})
+AuthVariants == IF Rich THEN {"ok", "fail"} ELSE {"fail"}
 
 \* what the harness schedules while a call is parked (everything else it skips)
 Allowed(op, k) ==
@@ -228,16 +234,17 @@ Allowed(op, k) ==
     [] w.kind = "auth"   -> k # w.k \/ op \in {"walled", "unwalled", "activate", "activity"}
     [] w.kind = "term"   -> k # w.k
     [] w.kind = "assign" -> k # w.k \/ op = "term"
-    [] w.kind = "tick"   -> k # w.k /\ op \in {"activity", "activate"}
+    [] w.kind = "tick"   -> FALSE
 
 Init == m = M0 /\ g = G0(Cfg) /\ hist = <<>> /\ bad = {} /\ fl = ""
 
 Next == /\ bad = {}
         /\ Len(hist) < MaxLen
         /\ \/ \E k \in Slots : \E oa \in AtomicOps : Allowed(oa.op, k) /\ Take(HEv(oa.op, k, oa.a, 0), Atomic(m, oa.op, k, oa.a))
+           \/ m.w.kind \in {"", "tick"} /\ Take(HEv("activity", 0, "", 0), ActivityAll(m))
            \/ m.w.kind = "" /\ Take(HEv("adv", 0, "", AdvQ), Adv(m, AdvQ))
            \/ m.w.kind = "" /\ Take(HEv("tick", 0, "", 0), Tick(m))
-           \/ m.w.kind = "" /\ \E k \in Slots : \E a \in {"ok", "fail"} : Take(HEv("auth_begin", k, a, 0), AuthBegin(m, k, a))
+           \/ m.w.kind = "" /\ \E k \in Slots : \E a \in AuthVariants : Take(HEv("auth_begin", k, a, 0), AuthBegin(m, k, a))
            \/ m.w.kind = "" /\ \E k \in Slots : Take(HEv("term_begin", k, "admin", 0), TermBegin(m, k, "admin"))
            \/ m.w.kind = "" /\ \E k \in Slots : Take(HEv("assign_begin", k, "a", 0), AssignBegin(m, k, "a"))
            \/ m.w.kind = "" /\ \E ord \in Orders(Victims(m)) : Take(HEv("tick_begin", 0, "", 0), TickBegin(m, ord))
